@@ -1,6 +1,6 @@
 (* Model/Dispatch.v — one entry point for the harness: op code + encoded argument -> encoded
    result.  Op codes are listed in harness/ops.py.  Glue, no proofs. *)
-From VK Require Import Base Core STV Pairwise Rules PV Election BallotCtor Cleaning Codec.
+From VK Require Import Base Core STV Pairwise Rules PV Election BallotCtor Cleaning Metrics Loaders Codec.
 
 Definition op_remove_cand (v : val) : val :=
   match v with
@@ -223,6 +223,68 @@ Definition op_remove_noncands (v : val) : val :=
   | _ => VE EScript
   end.
 
+Definition dCell (v : val) : res (cell cand) :=
+  match v with
+  | VN => ok (CBlank cand)
+  | VL [VZ 1; c] => let! c' := dPos c in ok (CStr cand c')
+  | VL [VZ 2; q] => let! q' := dQ q in ok (CNum cand q')
+  | VL [VZ 3; i] => let! i' := dPos i in ok (CId cand i')
+  | _ => err EScript
+  end.
+Definition op_load_csv (v : val) : val :=
+  match v with
+  | VL [bl; nc; rows; rc; wc; ic] =>
+      eRes eProfile (let! bl' := dPos bl in let! nc' := dNat nc in
+                     let! rows' := dList (dList dCell) rows in let! rc' := dList dNat rc in
+                     let! wc' := dOpt dNat wc in let! ic' := dOpt dNat ic in
+                     load_csv cand ceqb bl' nc' rows' rc' wc' ic')
+  | _ => VE EScript
+  end.
+Definition dTok (v : val) : res (tok cand) :=
+  match v with
+  | VN => ok (TEmpty cand)
+  | VL [VZ 1; VZ z] => ok (TNum cand z)
+  | VL [VZ 2; c; b] => let! c' := dPos c in let! b' := dB b in ok (TStr cand c' b')
+  | _ => err EScript
+  end.
+Definition eTok (t : tok cand) : val :=
+  match t with
+  | TEmpty _ => VN
+  | TNum _ z => VL [VZ 1; VZ z]
+  | TStr _ c b => VL [VZ 2; ePos c; VB b]
+  end.
+Definition op_load_scottish (v : val) : val :=
+  eRes (fun s => VL [eProfile (sc_profile cand s); eTok (sc_seats cand s);
+                     VL (map ePos (sc_cands cand s));
+                     VS (map (fun x => VL [ePos (fst x); eTok (snd x)]) (sc_party cand s));
+                     eTok (sc_ward cand s)])
+       (let! rows := dList (dList dTok) v in load_scottish cand ceqb rows).
+Definition op_to_csv (v : val) : val :=
+  eRes (fun rows => VL (map (fun r => VL [VQ (fst (fst r)); eRanking (snd (fst r)); eScores (snd r)]) rows))
+       (let! p := dProfile v in ok (to_csv_rows cand p)).
+Definition op_lp_sum (v : val) : val :=
+  match v with
+  | VL [p1; p2; p] => eRes VQ (let! a := dProfile p1 in let! b := dProfile p2 in let! n := dNat p in
+                               lp_sum cand ceqb a b n)
+  | _ => VE EScript
+  end.
+Definition op_linf (v : val) : val :=
+  match v with
+  | VL [p1; p2] => eRes VQ (let! a := dProfile p1 in let! b := dProfile p2 in linf cand ceqb a b)
+  | _ => VE EScript
+  end.
+Definition eNode (k : node) : val := VL (map eNat k).
+Definition op_graph (v : val) : val :=
+  eRes (fun g => VL [VS (map eNode (g_nodes g));
+                     VS (map (fun e => VS [eNode (fst e); eNode (snd e)]) (g_edges g))])
+       (let! n := dNat v in ok (build_graph n)).
+Definition op_node_weights (v : val) : val :=
+  match v with
+  | VL [p; fs] => eRes (fun ws => VS (map (fun x => VL [eNode (fst x); VQ (snd x)]) ws))
+                       (let! p' := dProfile p in let! fs' := dB fs in node_weights cand ceqb p' fs')
+  | _ => VE EScript
+  end.
+
 Definition dispatch (op : Z) (v : val) : val :=
   match op with
   | 1 => op_remove_cand v
@@ -245,6 +307,13 @@ Definition dispatch (op : Z) (v : val) : val :=
   | 41 => op_history v
   | 50 => op_make_ballot v
   | 60 => op_remove_empty v
+  | 70 => op_load_csv v
+  | 71 => op_load_scottish v
+  | 72 => op_to_csv v
+  | 80 => op_lp_sum v
+  | 81 => op_linf v
+  | 82 => op_graph v
+  | 83 => op_node_weights v
   | 61 => op_dedup v
   | 62 => op_remove_noncands v
   | 51 => op_mk_profile v
